@@ -510,7 +510,11 @@ theorem process_internal_event_keeps_pending_covers (W : List Key) (p0 : Prog) (
     (instance/head, statement, spec, context) — so over a second instance of a helper flow, the next loop iteration, the
     restart of an activated flow, with any kind of referent.  Tie: every real registration on a reference statement is
     re-computed by `nameOf` on the observed referent and compared with the bucket the interpreter used (driver op
-    `C09.refname`), on every run. -/
+    `C09.refname`), on every run.
+
+    Wave 6 (second half of the section): cases 2 and 3 of the same function — the object given BY NAME
+    (`match some_flow.Start()`, `match SomeAction.Stop()`) and the bare event — `nameOfSpec`; same tie (every real
+    registration over an object given by name is re-computed from spec type, member and "the flow exists"). -/
 section refname
 open NemoVerif.RefName
 
@@ -592,6 +596,164 @@ theorem name_cached_per_statement_counterexample :
     reg (arriveAllCached {} [exFoo, exBar]) exBar.key = some "FooActionFinished"
     ∧ (nameOf exBar.ctx exBar.spec).toOption = some "BarActionFinished"
     ∧ exBar.key ∉ bucket (arriveAllCached {} [exFoo, exBar]) "BarActionFinished" := by decide +kernel
+
+/-! ### object-by-NAME matches and bare events (cases 2 and 3 of `get_event_name_from_element`, wave 6) -/
+
+/-- the spec of `match <flow>.<m>()` for a flow given by name -/
+def namedFlowSpec (f m : String) : ElemSpec := { name := some f, specType := .flow, members := some [m] }
+/-- the spec of `match <Action>.<m>()` for an action given by name -/
+def namedActionSpec (a m : String) : ElemSpec := { name := some a, specType := .action, members := some [m] }
+/-- the spec of a bare event `match <Name>(…)` -/
+def bareSpec (n : String) : ElemSpec := { name := some n }
+
+/-- the name a `match <flow>.<m>()` names does not depend on the context or on the flow: it is the flow event's name -/
+theorem named_flow_name (flows : List String) (ctx : Ctx) (f m : String) (hf : f ∈ flows) :
+    nameOfSpec flows ctx (namedFlowSpec f m) = namedFlowEventName m := by
+  simp [nameOfSpec, namedFlowSpec, hf]
+
+/-- **a head on `match <flow>.<Event>()` (flow given by name) is filed under the name of the EVENT**: whatever name
+    `FlowState.get_event` gives the member (`StartFlow` for `Start`, `FlowStarted` for `Started`, …) is the bucket the head goes
+    to, and it goes to the end of that bucket. -/
+theorem named_flow_head_filed_under_event_name (s : IState) (k : Key) (flows : List String) (ctx : Ctx) (f m nm : String)
+    (hf : f ∈ flows) (h : namedFlowEventName m = .ok nm) :
+    reg (addHeadSpec s k flows ctx (namedFlowSpec f m)) k = some nm
+    ∧ bucket (addHeadSpec s k flows ctx (namedFlowSpec f m)) nm = bucket s nm ++ [k] := by
+  rw [reg_addHeadSpec, bucket_addHeadSpec, named_flow_name flows ctx f m hf, h]; simp
+
+/-- the REQUEST events of a flow given by name: `.Start()` is filed under `StartFlow` (not `FlowStart`) … -/
+theorem named_flow_start_filed_under_StartFlow (s : IState) (k : Key) (flows : List String) (ctx : Ctx) (f : String)
+    (hf : f ∈ flows) :
+    reg (addHeadSpec s k flows ctx (namedFlowSpec f "Start")) k = some "StartFlow"
+    ∧ bucket (addHeadSpec s k flows ctx (namedFlowSpec f "Start")) "StartFlow" = bucket s "StartFlow" ++ [k] :=
+  named_flow_head_filed_under_event_name s k flows ctx f "Start" "StartFlow" hf (by rfl)
+
+/-- … the whole table, for every member name (all of `FlowState._event_name_map` and everything outside it). -/
+theorem named_flow_event_name_table (flows : List String) (ctx : Ctx) (f m : String) (hf : f ∈ flows) :
+    nameOfSpec flows ctx (namedFlowSpec f m) =
+      if m = "Start" then .ok "StartFlow"
+      else if m = "Started" then .ok "FlowStarted"
+      else if m = "Finished" then .ok "FlowFinished"
+      else if m = "Failed" then .ok "FlowFailed"
+      else if m = "Stop" ∨ m = "Pause" ∨ m = "Resume" then .error .delMissingKey
+      else if m = "Paused" ∨ m = "Resumed" then .error .attributeError
+      else .error .flowEventNotAvailable := by
+  rw [named_flow_name flows ctx f m hf, namedFlowEventName_table]
+
+/-- an action given by name: the name is `Action.get_event`'s (`Start<A>`, `Stop<A>`, `<A>Started`, `<A><Param>Updated` …) -/
+theorem named_action_head_filed_under_event_name (s : IState) (k : Key) (flows : List String) (ctx : Ctx) (a m nm : String)
+    (h : actionEventName a m = .ok nm) :
+    reg (addHeadSpec s k flows ctx (namedActionSpec a m)) k = some nm
+    ∧ bucket (addHeadSpec s k flows ctx (namedActionSpec a m)) nm = bucket s nm ++ [k] := by
+  have hn : nameOfSpec flows ctx (namedActionSpec a m) = actionEventName a m := by simp [nameOfSpec, namedActionSpec]
+  rw [reg_addHeadSpec, bucket_addHeadSpec, hn, h]; simp
+
+/-- a bare event is filed under its own name -/
+theorem bare_event_head_filed_under_its_name (s : IState) (k : Key) (flows : List String) (ctx : Ctx) (n : String) :
+    reg (addHeadSpec s k flows ctx (bareSpec n)) k = some n
+    ∧ bucket (addHeadSpec s k flows ctx (bareSpec n)) n = bucket s n ++ [k] := by
+  have hn : nameOfSpec flows ctx (bareSpec n) = .ok n := by simp [nameOfSpec, bareSpec]
+  rw [reg_addHeadSpec, bucket_addHeadSpec, hn]; simp
+
+/-- a statement that names NO event (`match f.Stop()` by name, `f.Paused()`, `A.Failed()`, an unknown flow …): nothing is written -/
+theorem unnameable_statement_writes_nothing (s : IState) (k : Key) (flows : List String) (ctx : Ctx) (spec : ElemSpec) (e : Err)
+    (h : nameOfSpec flows ctx spec = .error e) : addHeadSpec s k flows ctx spec = s := by
+  unfold addHeadSpec; rw [h]
+
+/-- case 1 of `nameOfSpec` IS the reference model of phase 5 -/
+theorem reference_case_is_nameOf (flows : List String) (ctx : Ctx) (v : String) (ms : Option (List String)) (n : Option String) (t : RefName.SpecType) :
+    nameOfSpec flows ctx { varName := some v, name := n, specType := t, members := ms } = nameOf ctx { var := v, members := ms } := by
+  simp [nameOfSpec]
+
+/-- **every arrival at ANY kind of match statement is filed under its own name** (arbitrary sequences, pairwise different heads) -/
+theorem every_arrival_filed_under_its_own_name_any_spec (as : List ArrivalS) (s : IState)
+    (hd : as.Pairwise (fun a b => a.key ≠ b.key)) (a : ArrivalS) (ha : a ∈ as) (nm : String)
+    (hn : nameOfSpec a.flows a.ctx a.spec = .ok nm) : reg (arriveAllS s as) a.key = some nm := by
+  induction as generalizing s with
+  | nil => cases ha
+  | cons x rest ih =>
+    have hp := List.pairwise_cons.mp hd
+    simp only [arriveAllS, List.foldl_cons]
+    rcases List.mem_cons.mp ha with rfl | ha'
+    · have h1 := reg_arriveAllS_of_not_mem rest (arriveS s a) a.key (fun b hb e => hp.1 b hb e.symm)
+      simp only [arriveAllS] at h1
+      rw [h1, reg_arriveS, hn]; simp
+    · have := ih (arriveS s x) hp.2 ha'
+      simpa only [arriveAllS] using this
+
+/-- **no missed, no stale entry, any kind of match statement**: from the empty index, `k` is in bucket `nm` iff `k` arrived at a
+    statement that names `nm` -/
+theorem buckets_are_the_scan_any_spec (as : List ArrivalS) (nm : String) (k : Key) :
+    k ∈ bucket (arriveAllS {} as) nm ↔ ∃ a ∈ as, a.key = k ∧ nameOfSpec a.flows a.ctx a.spec = .ok nm := by
+  rw [mem_bucket_arriveAllS]
+  simp [bucket, OMap.lookup]
+
+/-- `Flow<member>` is the name of the member event of a flow exactly for the three STATE events -/
+theorem flow_member_shortcut_agrees_iff (m : String) :
+    namedFlowEventName m = .ok ("Flow" ++ m) ↔ (m = "Started" ∨ m = "Finished" ∨ m = "Failed") := by
+  rw [namedFlowEventName_table]
+  by_cases h1 : m = "Start"
+  · subst h1; simp
+  by_cases h2 : m = "Started"
+  · subst h2; simp
+  by_cases h3 : m = "Finished"
+  · subst h3; simp
+  by_cases h4 : m = "Failed"
+  · subst h4; simp
+  simp only [h1, h2, h3, h4, if_false, or_self, iff_false]
+  split
+  · simp
+  · split <;> simp
+
+/-! witnesses: the seed's demo — `flow audit / match transfer.Start()`, `flow main / start audit … start transfer` -/
+def exFlows : List String := ["main", "transfer", "audit"]
+def exAudit : ArrivalS := { key := ("audit1", "h1"), stmt := ("audit", 1), spec := namedFlowSpec "transfer" "Start", flows := exFlows, ctx := [] }
+def exMainWait : ArrivalS := { key := ("main1", "h2"), stmt := ("main", 3), spec := bareSpec "UtteranceUserActionFinished", flows := exFlows, ctx := [] }
+def exWatch : ArrivalS := { key := ("w1", "h3"), stmt := ("w", 1), spec := namedFlowSpec "transfer" "Finished", flows := exFlows, ctx := [] }
+def exActStop : ArrivalS := { key := ("w2", "h4"), stmt := ("w2", 1), spec := namedActionSpec "FooAction" "Stop", flows := exFlows, ctx := [] }
+
+/-- non-vacuity: the hypotheses of the theorems above on the demo, and their conclusions evaluated -/
+example : "transfer" ∈ exFlows ∧ namedFlowEventName "Start" = .ok "StartFlow" := by decide +kernel
+example : [exAudit, exMainWait, exWatch, exActStop].Pairwise (fun a b => a.key ≠ b.key) := by decide +kernel
+example : (arriveAllS {} [exAudit, exMainWait, exWatch, exActStop]).index =
+    [("StartFlow", [("audit1", "h1")]), ("UtteranceUserActionFinished", [("main1", "h2")]), ("FlowFinished", [("w1", "h3")]),
+     ("StopFooAction", [("w2", "h4")])] := by decide +kernel
+/-- `match transfer.Stop()` by name names nothing (the helper's `del` raises KeyError): the index stays as it is -/
+example : nameOfSpec exFlows [] (namedFlowSpec "transfer" "Stop") = .error .delMissingKey
+    ∧ (addHeadSpec {} ("o", "h") exFlows [] (namedFlowSpec "transfer" "Stop")).index = [] := by decide +kernel
+/-- … while the same member through a REFERENCE names `StopFlow` (case 1 asks the object, no `del`) -/
+example : nameOfSpec exFlows [("f", .mk .flow [])] { varName := some "f", members := some ["Stop"] } = .ok "StopFlow" := by decide +kernel
+
+/-- the seeded change C09-e as a model (`nameOfSpecShortcut`: `Flow<member>` for a flow given by name): the observer parked on
+    `match transfer.Start()` is filed under `FlowStart`, a name no event has, and is missing from the bucket `StartFlow` that
+    the StartFlow event of `start transfer` is dispatched through — `named_flow_head_filed_under_event_name` fails for it;
+    and it agrees with the code on `Finished` (why no shipped flow or test sees it). -/
+theorem flow_member_shortcut_counterexample :
+    reg (arriveAllShortcut {} [exAudit, exMainWait]) exAudit.key = some "FlowStart"
+    ∧ nameOfSpec exAudit.flows exAudit.ctx exAudit.spec = .ok "StartFlow"
+    ∧ exAudit.key ∉ bucket (arriveAllShortcut {} [exAudit, exMainWait]) "StartFlow"
+    ∧ (arriveAllShortcut {} [exWatch]).index = (arriveAllS {} [exWatch]).index := by decide +kernel
+
+/-- **the name the indexer files a head under is the name the dispatcher compares incoming events with**: whenever
+    `get_event_name_from_element` names `nm`, so does `get_event_from_element` (whatever the member arguments are) -/
+theorem index_name_is_dispatch_name (b : Bool) (flows : List String) (ctx : Ctx) (s : ElemSpec) (nm : String)
+    (h : nameOfSpec flows ctx s = .ok nm) : dispatchNameOfSpec b flows ctx s = .ok nm := by
+  rw [← nameOfSpecG_actionEventName] at h
+  exact nameOfSpecG_mono _ _ (fun a m nm h => actionEventNameD_of_ok b a m nm h) flows ctx s nm h
+
+/-- without `arguments` among the member arguments the two functions are the same function (names AND exceptions) -/
+theorem dispatchNameOfSpec_false (flows : List String) (ctx : Ctx) (s : ElemSpec) :
+    dispatchNameOfSpec false flows ctx s = nameOfSpec flows ctx s := by
+  have hD : actionEventNameD false = actionEventName := by funext a m; simp [actionEventNameD]
+  rw [dispatchNameOfSpec, hD, nameOfSpecG_actionEventName]
+
+/-- the converse fails exactly where the code's two functions differ: `match $a.Change(arguments={…})` — the dispatcher names
+    `ChangeFooAction`, the indexer's name function (which passes no arguments) raises KeyError: the flow fails instead of parking -/
+example : dispatchNameOfSpec true [] [("a", .mk (.action "FooAction") [])] { varName := some "a", members := some ["Change"] } = .ok "ChangeFooAction"
+    ∧ nameOfSpec [] [("a", .mk (.action "FooAction") [])] { varName := some "a", members := some ["Change"] } = .error .changeWithoutArguments := by
+  decide +kernel
+/-- non-vacuity of `index_name_is_dispatch_name` on the seed's demo -/
+example : nameOfSpec exFlows [] (namedFlowSpec "transfer" "Start") = .ok "StartFlow"
+    ∧ dispatchNameOfSpec true exFlows [] (namedFlowSpec "transfer" "Start") = .ok "StartFlow" := by decide +kernel
 
 end refname
 
